@@ -10,6 +10,7 @@ import (
 	"os"
 	"os/exec"
 	"reflect"
+	"strings"
 	"sync"
 	"sync/atomic"
 	"time"
@@ -360,6 +361,9 @@ type hostileResult struct {
 	FailInputs []string `json:"fail_inputs"`
 	FailStream []bool   `json:"fail_stream"`
 	Accepted   int64    `json:"accepted_without_error"`
+	// two-message sequences with a hostile node id (seq_c13_pairs.go)
+	Pairs     int64      `json:"hostile_id_pairs"`
+	PairFails []pairFail `json:"pair_failures"`
 }
 
 func hostileWorker(maxLen int) int {
@@ -450,6 +454,7 @@ func hostileWorker(maxLen int) int {
 	close(jobs)
 	wg.Wait()
 	res.Inputs, res.ShortAll, res.PacketEdit, res.StreamEdit = inputs, shortN, pe, se
+	res.Pairs, res.PairFails = hostilePairs(packets, streams)
 	b, _ := json.Marshal(res)
 	fmt.Println(string(b))
 	return 0
@@ -560,7 +565,19 @@ func init() {
 			}
 			run.Violation("C13", sig, f, map[string]any{"engine": "E3-C13-hostile", "input_hex": hr.FailInputs[i], "stream": hr.FailStream[i]})
 		}
-		fmt.Printf("  C13 hostile: %d inputs (%d short strings, %d datagram neighbours, %d stream neighbours) corpus=%d+%d\n", hr.Inputs, hr.ShortAll, hr.PacketEdit, hr.StreamEdit, hr.Corpus, hr.Streams)
+		for _, pf := range hr.PairFails {
+			sig := "own-state-changed-by-hostile-sequence"
+			if strings.Contains(pf.Msg, "handler panicked") {
+				sig = "handler-panic-on-second-message"
+			}
+			run.Violation("C13", sig, pf.Msg, map[string]any{"engine": "E3-C13-pair", "pair": pf})
+		}
+		// values nested deeper than any datagram allows, in streams (one worker
+		// process per case: seq_c13_nested.go)
+		nc, nn := c13Nested(run)
+		run.Set("nested_stream_cases", nc)
+		run.Set("nested_stream_cases_not_completed", nn)
+		fmt.Printf("  C13 hostile: %d inputs (%d short strings, %d datagram neighbours, %d stream neighbours) corpus=%d+%d; %d two-message sequences with a hostile id; %d nested-stream cases\n", hr.Inputs, hr.ShortAll, hr.PacketEdit, hr.StreamEdit, hr.Corpus, hr.Streams, hr.Pairs, nc)
 		run.Sample(map[string]any{"kind": "hostile", "corpus_packets": hr.Corpus, "corpus_streams": hr.Streams})
 		run.Set("evaluations", evals+states+int(hr.Inputs))
 		run.Set("distinct_nontrivial", truncs+int(hr.PacketEdit)+int(hr.StreamEdit))
